@@ -16,12 +16,12 @@ BUDGET = {'quick': 8000, 'thorough': 100000}
 WALL = {'quick': 45, 'thorough': 1500}
 RULE = ('one trash-restore per case: 1-4 trashed entries (file, dir, symlink) whose original locations are occupied by a generated '
         'destination kind (absent, file, empty file, empty/non-empty dir, symlink to file/dir, dangling symlink, self-loop), with and '
-        'without --overwrite, single and multi-index replies; non-trivial = a selected entry has an occupied destination; distinct = '
+        'without --overwrite, single and multi-index replies; in 15 % of the cases the occupants appear only while trash-restore waits for the reply (environment event); non-trivial = a selected entry has an occupied destination; distinct = '
         '(trashed kind, destination kind, overwrite, position in selection)')
 ASSUMPTIONS = ['with --overwrite and a directory at the destination the outcome is not specified by the property and not judged',
                'what happens to entries selected after a refused one is not specified and not judged']
 PROBES = ['same-location-twice', 'refused', 'overwritten', 'restored-to-free-destination', 'multi-index', 'dest-dangling', 'dest-symlink-dir', 'dest-dir',
-          'dest-file', 'restored-before-refusal']
+          'dest-file', 'restored-before-refusal', 'destination-occupied-after-the-listing']
 TECHNIQUE = 'deterministic simulation of trash-restore against generated destination states; snapshot oracle on destination, link targets and trash pair'
 LEVEL_TEXT = 'seeded exploration of trashed kind x destination kind x --overwrite x selection; judged on real file-system semantics'
 LEVEL_NOTE = 'trusted: snapshot function, model/bag.py'
@@ -37,6 +37,7 @@ def gen(rng):
     locs = [t for t in TG.trash_locations(L) if t[2]]
     n = rng.choice([1, 1, 2, 3, 4])
     ngen2 = 0
+    late = [] if rng.random() < 0.15 else None
     steps.append(['d', home + '/tg', 0o755])
     steps.append(['f', home + '/tg/linked_file', 'target content', 0o644, 1_111_111_111])
     steps.append(['d', home + '/tg/linked_dir', 0o755])
@@ -53,23 +54,28 @@ def gen(rng):
             G.add_trashed(steps, tdir, nm + '_1', pv, TG.iso(TG.rand_date(rng)), rng.choice(['file', 'dir', 'link']), tag='gen2-%d' % i)
             ngen2 += 1
         dk = rng.choice(DEST)
+        if late is not None:
+            # the occupant appears while trash-restore waits for the reply (after the listing was printed)
+            occ_steps = late
+        else:
+            occ_steps = steps
         if dk == 'file':
-            steps.append(['f', loc, 'existing-%d' % i, 0o640, 1_222_222_222])
+            occ_steps.append(['f', loc, 'existing-%d' % i, 0o640, 1_222_222_222])
         elif dk == 'emptyfile':
-            steps.append(['f', loc, '', 0o644, 1_222_222_223])
+            occ_steps.append(['f', loc, '', 0o644, 1_222_222_223])
         elif dk == 'emptydir':
-            steps.append(['d', loc, 0o755])
+            occ_steps.append(['d', loc, 0o755])
         elif dk == 'dir':
-            steps.append(['d', loc, 0o755])
-            steps.append(['f', loc + '/occupant', 'occ', 0o644, 1_222_222_224])
+            occ_steps.append(['d', loc, 0o755])
+            occ_steps.append(['f', loc + '/occupant', 'occ', 0o644, 1_222_222_224])
         elif dk == 'link_file':
-            steps.append(['l', loc, home + '/tg/linked_file'])
+            occ_steps.append(['l', loc, home + '/tg/linked_file'])
         elif dk == 'link_dir':
-            steps.append(['l', loc, home + '/tg/linked_dir'])
+            occ_steps.append(['l', loc, home + '/tg/linked_dir'])
         elif dk == 'dangling':
-            steps.append(['l', loc, rng.choice(['nothing', '/no/where'])])
+            occ_steps.append(['l', loc, rng.choice(['nothing', '/no/where'])])
         elif dk == 'selfloop':
-            steps.append(['l', loc, nm])
+            occ_steps.append(['l', loc, nm])
     argv = ['trash-restore']
     if rng.random() < 0.45:
         argv.append('--overwrite')
@@ -86,6 +92,7 @@ def gen(rng):
         'world': {'mounts': L['mounts'], 'steps': steps},
         'procs': [{'argv': argv, 'env': L['env'], 'cwd': '/', 'uid': L['uid'], 'stdin': reply + '\n'}],
         'dirsalt': rng.randrange(1 << 30),
+        'late_occupants': late or [],
     }
 
 
@@ -156,7 +163,24 @@ def check(sim, case, st):
     mounts = OR.mounts_of(case)
     snap0 = sim.snap()
     bag0 = OR.scan(sim, snap0, env, uid, mounts)
-    r = sim.run(spec)
+    if case.get('late_occupants'):
+        # environment event: the destinations get occupied after the listing, before the reply is read
+        from sim.vkernel import environment
+        holder = {}
+
+        def user(_out):
+            if 'snap' not in holder:
+                with environment():
+                    Wd.build(sim.root, {'steps': case['late_occupants']})
+                    holder['snap'] = sim.snap()
+                return spec.get('stdin', '\n')
+            return None
+        r = sim.run(spec, stdin_fn=user)
+        if 'snap' in holder:
+            snap0 = holder['snap']
+            st.probes['destination-occupied-after-the-listing'] += 1
+    else:
+        r = sim.run(spec)
     st.sims += 1
     st.ops += r.nops
     snap1 = sim.snap()
